@@ -160,18 +160,24 @@ theorem exec_simple_case {c : Core} (hinv : Inv code t G c) {ft : FnTab} {f : Fn
     (ctx : AtInstr code t G f ft c.cur c.regs i h) (htab : t.tab c.cur.fnIdx = some ft) (hfn : code.fn c.cur.fnIdx = some f)
     (hnc : i.op ≠ opCall) (hnr : i.op ≠ opReturn) (hns : i.op ≠ opSuspend) :
     SafeX (do
-      let o ← execSimple code f c.cur (i.pos : Int) i.op c.regs
-      pure (ExecOut.next { c with regs := o.regs, cur := { c.cur with ip := o.ip } } o.alloc)) (StepGoal code t G) := by
+      let o ← execSimple code c.cur (A0 i.args) (A1 i.args) i.op c.regs
+      let ip' : Int := match o.next with
+        | .seq => (i.pos : Int) + i.size - 1
+        | .jump t => Int.ofNat t - 1
+      pure (ExecOut.next { c with regs := o.regs, cur := { c.cur with ip := ip' } } o.alloc)) (StepGoal code t G) := by
   refine SafeX_bind (execSimple_step ctx hnc hnr hns) ?_
-  rintro o ⟨⟨p', h', hat, hget, hip, hsp, hgl⟩, hfs⟩
+  rintro o ⟨⟨p', h', hat, hget, hnext, hsp, hgl⟩, hfs⟩
   apply SafeX_pure
   obtain ⟨i', hi'⟩ := Option.isSome_iff_exists.mp hat
   obtain ⟨_, hpos⟩ := instrAt_mem' hi'
   refine ⟨⟨ft, f, i', h', htab, hfn, by rw [hpos]; exact hi', ?_, by rw [hpos]; exact hget, hsp, ctx.freeLen⟩, ?_, hgl,
     FobjsOK_step hinv.fo hfs⟩
-  · rw [hpos]; exact hip
+  · rw [hpos]
+    dsimp only
+    cases hn : o.next with
+    | seq => rw [hn] at hnext; dsimp only at hnext ⊢; rw [hnext]; push_cast; omega
+    | jump tg => rw [hn] at hnext; dsimp only at hnext ⊢; rw [hnext]; simp
   · exact Chain_congr (a := c.cur) rfl rfl hinv.chain
-
 
 omit hck in
 theorem byteAt_getD (f : Fn) (n : Nat) : byteAt f (n : Int) = (f.insts.toList.getD n 0).toNat := by
@@ -181,22 +187,20 @@ theorem byteAt_getD (f : Fn) (n : Nat) : byteAt f (n : Int) = (f.insts.toList.ge
   simp [Array.getD_eq_getD_getElem?, List.getD_eq_getElem?_getD]
 
 /-- The facts about a CALL instruction of a verified function. -/
-structure CallFacts (f : Fn) (ft : FnTab) (pos h : Nat) : Prop where
-  le : byteAt f ((pos : Int) + 1) + 1 ≤ h
-  next : (instrAt ft.is (pos + 3)).isSome = true ∧ ft.hm.get (pos + 3) = some (h - (byteAt f ((pos : Int) + 1) + 1) + 1)
-  spread : byteAt f ((pos : Int) + 2) = 1 → 1 ≤ byteAt f ((pos : Int) + 1)
+structure CallFacts (f : Fn) (ft : FnTab) (pos h : Nat) (args : List Nat) : Prop where
+  le : A0 args + 1 ≤ h
+  next : (instrAt ft.is (pos + 3)).isSome = true ∧ ft.hm.get (pos + 3) = some (h - (A0 args + 1) + 1)
+  spread : A1 args = 1 → 1 ≤ A0 args
   tail : (byteAt f ((pos : Int) + 2 + 1) = opReturn ∨
           (byteAt f ((pos : Int) + 2 + 1) = opPop ∧ byteAt f ((pos : Int) + 2 + 2) = opReturn)) →
-         h = byteAt f ((pos : Int) + 1) + 1
+         h = A0 args + 1
 
 omit hck in
 theorem call_facts {f : Fn} {ft : FnTab} {fr : Frame} {r : Regs} {pos : Nat} {args : List Nat} {h : Nat}
-    (ctx : AtInstr code t G f ft fr r ⟨pos, opCall, args⟩ h) : CallFacts f ft pos h := by
-  have ha : args = [byteAt f ((pos : Int) + 1), byteAt f ((pos : Int) + 2)] := link8_8 f ft.is ctx.dec _ ctx.mem (by simp [opCall])
-  subst ha
-  have hs : succs ⟨pos, opCall, [byteAt f ((pos : Int) + 1), byteAt f ((pos : Int) + 2)]⟩ h =
-      if h < byteAt f ((pos : Int) + 1) + 1 then none
-      else some [(pos + (1 + 2), h - (byteAt f ((pos : Int) + 1) + 1) + 1)] := by succs_simp
+    (ctx : AtInstr code t G f ft fr r ⟨pos, opCall, args⟩ h) : CallFacts f ft pos h args := by
+  have hs : succs ⟨pos, opCall, args⟩ h =
+      if h < A0 args + 1 then none
+      else some [(pos + (1 + 2), h - (A0 args + 1) + 1)] := by succs_simp
   obtain ⟨l, hl, hall⟩ := ctx.succs_ok
   rw [hs] at hl
   split at hl
@@ -206,7 +210,9 @@ theorem call_facts {f : Fn} {ft : FnTab} {fr : Frame} {r : Regs} {pos : Nat} {ar
   subst hl
   have hnext := hall _ _ (List.mem_singleton.mpr rfl)
   have hext := ctx.ext
-  simp only [extraOk, opCall, opClosure, opConstant, List.headD_cons, List.drop_succ_cons, List.drop_zero,
+  have e0 : A0 args = args.head?.getD 0 := by simp [A0]
+  have e1 : A1 args = args[1]?.getD 0 := by simp [A1]
+  simp only [extraOk, opCall, opClosure, opConstant,
     Nat.reduceBEq, Bool.false_eq_true, ↓reduceIte, ctx.hget, Bool.and_eq_true, Bool.or_eq_true, bne_iff_ne, ne_eq,
     decide_eq_true_eq] at hext
   obtain ⟨hsp, htl⟩ := hext
@@ -228,15 +234,14 @@ theorem call_facts {f : Fn} {ft : FnTab} {fr : Frame} {r : Regs} {pos : Nat} {ar
     rw [if_pos this] at htl
     simpa using htl
 
-
 omit hck in
 /-- The frame that made a call, as it will be resumed: at the instruction after the CALL, with the
 stack pointer just above the result slot. -/
-theorem resume_frame {c : Core} {ft : FnTab} {f : Fn} {pos h : Nat} (cf : CallFacts f ft pos h)
+theorem resume_frame {c : Core} {ft : FnTab} {f : Fn} {pos h : Nat} {args : List Nat} (cf : CallFacts f ft pos h args)
     (htab : t.tab c.cur.fnIdx = some ft) (hfn : code.fn c.cur.fnIdx = some f)
     (hsp : c.regs.sp = c.cur.bp + f.numLocals + h) (hfree : c.cur.free.length = t.free c.cur.fnIdx)
     (fr' : Frame) (h1 : fr'.fnIdx = c.cur.fnIdx) (h2 : fr'.bp = c.cur.bp) (h3 : fr'.free = c.cur.free)
-    (h4 : fr'.ip = (pos : Int) + 2) (sp' : Nat) (h5 : sp' + byteAt f ((pos : Int) + 1) = c.regs.sp) :
+    (h4 : fr'.ip = (pos : Int) + 2) (sp' : Nat) (h5 : sp' + A0 args = c.regs.sp) :
     FrameAt code t fr' sp' := by
   obtain ⟨i', hi'⟩ := Option.isSome_iff_exists.mp cf.next.1
   obtain ⟨_, hpos⟩ := instrAt_mem' hi'
@@ -248,11 +253,11 @@ theorem resume_frame {c : Core} {ft : FnTab} {f : Fn} {pos h : Nat} (cf : CallFa
 theorem exec_call_case {c : Core} (hinv : Inv code t G c) {ft : FnTab} {f : Fn} {pos : Nat} {args : List Nat} {h : Nat}
     (ctx : AtInstr code t G f ft c.cur c.regs ⟨pos, opCall, args⟩ h) (htab : t.tab c.cur.fnIdx = some ft)
     (facts : FnFacts code t G c.cur.fnIdx ft f) :
-    SafeX (execCall code f (pos : Int) c) (StepGoal code t G) := by
+    SafeX (execCall code f (pos : Int) (A0 args) (A1 args) c) (StepGoal code t G) := by
   have cf := call_facts ctx
   have hfn := facts.fn
   have hsp := ctx.spEq
-  refine SafeX_mono (execCall_spec code f pos c (by have := cf.le; omega) cf.spread) ?_
+  refine SafeX_mono (execCall_spec code f pos (A0 args) (A1 args) c (by have := cf.le; omega) cf.spread) ?_
   intro o hpost
   cases hpost with
   | builtin c' h1 h2 h3 h4 h5 =>
@@ -260,7 +265,7 @@ theorem exec_call_case {c : Core} (hinv : Inv code t G c) {ft : FnTab} {f : Fn} 
     · exact resume_frame cf htab hfn hsp ctx.freeLen c'.cur (by rw [h4]) (by rw [h4]) (by rw [h4]) (by rw [h4]) _ h1
     · rw [h5]; exact Chain_congr (a := c.cur) (by rw [h4]) (by rw [h4]) hinv.chain
   | tail c' cr h1 h2 h3 h4 h5 h6 h7 h8 ht =>
-    have hh : h = byteAt f ((pos : Int) + 1) + 1 := by
+    have hh : h = A0 args + 1 := by
       apply cf.tail
       unfold isSelfTail at ht
       simp only [Bool.and_eq_true, Bool.or_eq_true, beq_iff_eq] at ht
@@ -289,11 +294,9 @@ theorem exec_call_case {c : Core} (hinv : Inv code t G c) {ft : FnTab} {f : Fn} 
 
 theorem exec_return_case {c : Core} (hinv : Inv code t G c) {ft : FnTab} {f : Fn} {pos : Nat} {args : List Nat} {h : Nat}
     (ctx : AtInstr code t G f ft c.cur c.regs ⟨pos, opReturn, args⟩ h) :
-    SafeX (execReturn f (pos : Int) c) (StepGoal code t G) := by
-  have ha : args = [byteAt f ((pos : Int) + 1)] := link8 f ft.is ctx.dec _ ctx.mem (by simp [opReturn])
-  subst ha
-  have hs : succs ⟨pos, opReturn, [byteAt f ((pos : Int) + 1)]⟩ h =
-      if h < byteAt f ((pos : Int) + 1) then none else some [] := by succs_simp
+    SafeX (execReturn (A0 args) c) (StepGoal code t G) := by
+  have hs : succs ⟨pos, opReturn, args⟩ h =
+      if h < A0 args then none else some [] := by succs_simp
   obtain ⟨l, hl, _⟩ := ctx.succs_ok
   rw [hs] at hl
   split at hl
@@ -315,10 +318,9 @@ theorem exec_return_case {c : Core} (hinv : Inv code t G c) {ft : FnTab} {f : Fn
     have hch := hinv.chain
     rw [hcs] at hch
     obtain ⟨_, _, hfa, hrest⟩ := hch
-    refine SafeX_mono (execReturn_spec f pos c caller rest hcs (by intro h1; have := ctx.spEq; omega)) ?_
+    refine SafeX_mono (execReturn_spec (A0 args) c caller rest hcs (by intro h1; have := ctx.spEq; omega)) ?_
     rintro o ⟨c', rfl, h1, h2, h3, h4, h5⟩
     refine ⟨by rw [h1, h3]; exact hfa, by rw [h1, h2]; exact hrest, by rw [h4]; exact hinv.gl, by rw [h5]; exact hinv.fo⟩
-
 
 /-- **One dispatch of a verified program preserves the invariant and cannot fault.** -/
 theorem exec_inv {c : Core} (hinv : Inv code t G c) : SafeX (exec code c) (StepGoal code t G) := by
@@ -331,7 +333,8 @@ theorem exec_inv {c : Core} (hinv : Inv code t G c) : SafeX (exec code c) (StepG
   have hb : ¬ ((decide ((i.pos : Int) < 0) || decide (((i.pos : Int)).toNat ≥ f.insts.size)) = true) := by
     simp only [Bool.or_eq_true, decide_eq_true_eq, Int.toNat_natCast, not_or]
     exact ⟨by omega, by omega⟩
-  rw [if_neg hb, hop]
+  rw [if_neg hb, fetch_decoded f ft.is ctx.dec i ctx.mem]
+  dsimp only
   obtain ⟨pos, op, args⟩ := i
   dsimp only at hop ctx ⊢
   by_cases hcall : op = opCall
